@@ -4,10 +4,11 @@ Per run: a small committed tree (bzr 2a or git) and one transform, produced eith
 direct TreeTransform script (create / delete / rename chain / swap / kind change / move
 into new dir / replace / chmod) or by a real command on a seeded edit (revert, merge,
 switch, shelve, unshelve).  A dry pass records the file-system calls of apply() at the os
-seam and the states S0 (before) and S1 (after).  Then one forked re-execution per call
-index k: the world is restored from a pristine copy, the same transform is rebuilt, call k
-raises OSError(errno), the command/finalize() cleans up, and the reopened tree is compared
-with S0 / S1."""
+seam and the states S0 (before) and S1 (after).  Then one re-execution per call index k
+(quick: a seeded sample of <= 12): the world is restored from a pristine copy, the same
+transform is rebuilt, call k raises OSError(errno), the command / finalize() cleans up, and
+the reopened tree is compared with S0 / S1.  Violations whose signature is an open known
+finding are noted and the enumeration goes on, so that other violations stay visible."""
 
 import gc
 import json
@@ -66,8 +67,8 @@ def warm():
 
 def config(tier):
     if tier == "thorough":
-        return {"budget_s": 700, "run_timeout": 180, "selftest": 16}
-    return {"budget_s": 45, "run_timeout": 180, "selftest": 8}
+        return {"budget_s": 700, "run_timeout": 180, "selftest": 16, "max_runs": 12000}  # in-process runs leak ~0.5 MB each (see xformsim.end_of_run)
+    return {"budget_s": 45, "run_timeout": 180, "selftest": 16}
 
 
 # --------------------------------------------------------------------------------------
@@ -766,6 +767,14 @@ ANTICIPATED = {"discard:delete_any", "git.discard:delete_any", "rollback:mode-no
 
 
 def execute(sim, plan):
+    try:
+        _execute(sim, plan)
+    finally:
+        sim.apply_hook = None
+        xformsim.end_of_run()
+
+
+def _execute(sim, plan):
     from breezy import errors as berrors
     from breezy import transform as _t
 
@@ -776,7 +785,9 @@ def execute(sim, plan):
     root = os.path.join(W, "t")
     try:
         build_world(plan, W)
-    except Exception as e:  # noqa: BLE001
+    except BaseException as e:  # noqa: B036 - includes pyo3 PanicException (a BaseException)
+        if isinstance(e, (KeyboardInterrupt, SystemExit, Violation)) or type(e).__name__ in ("SimCrash", "HarnessTruncated"):
+            raise
         # an edit sequence the tree API refuses or cannot handle (not the subject of this check)
         kind = "refused" if isinstance(e, (berrors.BzrError, OSError)) else "crashed"
         sim.probe(f"world_{kind}_{plan['mode']}_{plan['fmt']}_{type(e).__name__}")
